@@ -34,13 +34,13 @@ VARIABLES now, bal, modBal, pools, acct, traces, vdenom, msgs, act
 vars == <<now, bal, modBal, pools, acct, traces, vdenom, msgs, act>>
 
 -----------------------------------------------------------------------------
-ZeroC == [d \in Denoms |-> 0]
-AddC(a, b) == [d \in Denoms |-> a[d] + b[d]]
-SubC(a, b) == [d \in Denoms |-> a[d] - b[d]]
+ZeroC == TLCEval([d \in Denoms |-> 0])
+AddC(a, b) == TLCEval([d \in Denoms |-> a[d] + b[d]])
+SubC(a, b) == TLCEval([d \in Denoms |-> a[d] - b[d]])
 IsZeroC(a) == \A d \in Denoms : a[d] = 0
 AllGE0(a) == \A d \in Denoms : a[d] >= 0
 AllLE(a, b) == \A d \in Denoms : a[d] <= b[d]
-Only(d0, n) == [d \in Denoms |-> IF d = d0 THEN n ELSE 0]
+Only(d0, n) == TLCEval([d \in Denoms |-> IF d = d0 THEN n ELSE 0])
 
 NoAcct == [kind |-> "none", ov |-> ZeroC, start |-> 0, end |-> 0, dv |-> 0, df |-> 0]
 BaseAcct == [NoAcct EXCEPT !.kind = "base"]
@@ -55,7 +55,7 @@ VT(n) == CHOOSE vt \in VTypes : vt.name = n
 (* ---- x/auth ContinuousVestingAccount (sdk 0.46.10) ---- *)
 VestingC(a, t) == IF a.kind = "cv" THEN [d \in Denoms |-> Vesting1(a.ov[d], a.start, a.end, t)] ELSE ZeroC
 \* BaseVestingAccount.LockedCoinsFromVesting: vesting minus min(vesting, delegated vesting)
-LockedC(a, t) == [d \in Denoms |-> IF d = VDenom THEN Max(0, VestingC(a, t)[d] - a.dv) ELSE VestingC(a, t)[d]]
+LockedC(a, t) == TLCEval([d \in Denoms |-> IF d = VDenom THEN Max(0, VestingC(a, t)[d] - a.dv) ELSE VestingC(a, t)[d]])
 SpendableC(x, t) == SubC(bal[x], LockedC(acct[x], t))
 
 (* ---- UnlockUnbondedContinuousVestingAccountCoins: new original vesting after unlocking u ----
@@ -147,7 +147,7 @@ DoSplitCoins(from, to, c) ==
   ELSE IF acct[from].kind # "cv" THEN Rej
   ELSE IF ~AllLE(c, LockedC(acct[from], now)) THEN Rej
   ELSE LET a == acct[from]
-           nov == [d \in Denoms |-> SplitOV(a.ov[d], a.start, a.end, now, c[d])]
+           nov == TLCEval([d \in Denoms |-> SplitOV(a.ov[d], a.start, a.end, now, c[d])])
            a2 == [a EXCEPT !.ov = nov]
            \* bank.SendCoins must find the coins spendable after the unlock
            spend == SubC(bal[from], LockedC(a2, now))
@@ -165,7 +165,7 @@ DoMove(from, to) == DoSplitCoins(from, to, LockedC(acct[from], now))
 \* MsgMoveAvailableVestingByDenoms
 DoMoveDenoms(from, to, ds) ==
   IF ds = {} THEN Rej
-  ELSE DoSplitCoins(from, to, [d \in Denoms |-> IF d \in ds THEN LockedC(acct[from], now)[d] ELSE 0])
+  ELSE DoSplitCoins(from, to, TLCEval([d \in Denoms |-> IF d \in ds THEN LockedC(acct[from], now)[d] ELSE 0]))
 
 -----------------------------------------------------------------------------
 (* symbolic amounts are resolved against the current state *)
@@ -201,9 +201,9 @@ TryMsg(x) ==
   /\ CASE x.m = "createpool" -> Apply(DoCreatePool(x.o, x.n, Resolve(x.amt, bal[x.o][vdenom]), x.dur, x.vt), [name |-> "createpool", x |-> x, amt |-> Resolve(x.amt, bal[x.o][vdenom])])
        [] x.m = "withdraw" -> Apply(DoWithdraw(x.o), [name |-> "withdraw", x |-> x])
        [] x.m = "send" -> Apply(DoSend(x.o, x.to, x.n, Resolve(x.amt, PoolRem(x.o, x.n)), x.restart), [name |-> "send", x |-> x, amt |-> Resolve(x.amt, PoolRem(x.o, x.n))])
-       [] x.m = "createacc" -> LET c == [d \in Denoms |-> IF d \in x.ds THEN Resolve(x.amt, SpendableC(x.from, now)[d]) ELSE 0]
+       [] x.m = "createacc" -> LET c == TLCEval([d \in Denoms |-> IF d \in x.ds THEN Resolve(x.amt, SpendableC(x.from, now)[d]) ELSE 0])
                                IN Apply(DoCreateAcc(x.from, x.to, c, x.ds, now + x.ds0, now + x.de0), [name |-> "createacc", x |-> x, c |-> c, s |-> now + x.ds0, e |-> now + x.de0])
-       [] x.m = "split" -> LET c == [d \in Denoms |-> IF d \in x.ds THEN Resolve(x.amt, LockedC(acct[x.from], now)[d]) ELSE 0]
+       [] x.m = "split" -> LET c == TLCEval([d \in Denoms |-> IF d \in x.ds THEN Resolve(x.amt, LockedC(acct[x.from], now)[d]) ELSE 0])
                            IN Apply(DoSplit(x.from, x.to, c, x.ds), [name |-> "split", x |-> x, c |-> c])
        [] x.m = "move" -> Apply(DoMove(x.from, x.to), [name |-> "move", x |-> x])
        [] x.m = "movedenoms" -> Apply(DoMoveDenoms(x.from, x.to, x.ds), [name |-> "movedenoms", x |-> x])
